@@ -69,6 +69,37 @@ def fresh (e : Env) (m : ModelSig) : Table :=
 def rebuilt (e : Env) (m : ModelSig) : Table :=
   ⟨m.table, (dataFields m).map (colOf e), fieldIndexes e (dataFields m), []⟩
 
+/-! ### foreign-key targets
+
+`CREATE TABLE` of a fresh model references the related model's primary-key *column*; the rebuild
+takes the referenced column from `build_column_schema`, whose expression
+`related_model._meta.pk.<attr>` is extracted from the source (`Generated.fkReferenceAttr`). -/
+
+structure Fk where
+  col : String
+  refTable : String
+  refCol : String
+  deriving DecidableEq, Repr, Inhabited
+
+def pkField (e : Env) (m : ModelSig) : Option FieldSig :=
+  (dataFields m).find? (fun f => truthy (e.attrValue f "primary_key"))
+
+/-- what the expression `pk.<attr>` evaluates to; `none` for an attribute the model does not know -/
+def pkAttr (attr : String) (pk : FieldSig) : Option String :=
+  if attr == "column" then some (columnOf pk) else if attr == "name" then some pk.name else none
+
+def fksWith (refCol : FieldSig → Option String) (e : Env) (lookup : String → Option ModelSig) (m : ModelSig) :
+    List Fk :=
+  (dataFields m).filterMap (fun f =>
+    if isRel f.ftype then
+      match f.related.bind lookup with
+      | some tgt => (pkField e tgt).bind (fun pk => (refCol pk).map (fun c => ⟨columnOf f, tgt.table, c⟩))
+      | none => none
+    else none)
+
+def freshFks := fksWith (fun pk => some (columnOf pk))
+def rebuiltFks (attr : String) := fksWith (pkAttr attr)
+
 /-- no table-level Meta, no Meta.indexes/constraints, no CHECK-carrying field -/
 def plainModel (m : ModelSig) : Bool :=
   m.uniqueTogether.isEmpty && m.indexTogether.isEmpty && m.indexes.isEmpty && m.constraints.isEmpty &&
